@@ -7,13 +7,14 @@ Two layers of the model:
   * ArgStore layer (`Model/ArgStore.lean`): `add_tag`, `remove_tag`, `clear_tags` on one
     Buildable, with the history log.
 Survival of tags under copies / casts and under diff application is proved through the models
-of C07 and C10; survival under serialization and the expansion and build of `TaggedValue` are
-carried by the correspondence check and the oracle.
+of C07, C09 and C10; the expansion and build of `TaggedValue` are carried by the
+correspondence check and the oracle.
 -/
 import FiddleModel.Lemmas.SelectL
 import FiddleModel.Lemmas.History
 import FiddleModel.Lemmas.CopyL
 import FiddleModel.Lemmas.DiffMain
+import FiddleModel.Properties.C09
 
 namespace Fiddle
 
@@ -186,6 +187,26 @@ theorem C14_tags_after_apply_diff (sg : Diff.Sigs) (old new : Diff.Flat) (ho : o
         (Diff.flatDiff old new) old = .ok r ∧ ∀ n t, t ∈ r.tagsOf n ↔ t ∈ new.tagsOf n := by
   obtain ⟨r, hr, _, _, ht⟩ := Diff.flat_roundtrip sg old new ho hn
   exact ⟨r, hr, ht⟩
+
+/-- `dump_json` then `load_json` carry every tag of every node: loading recreates the dumped
+    table (`C09_load_of_dump`), and wherever a path leads to a node of the input, the same path
+    in the table leads to a node of the same callable with the same tag sets. -/
+theorem C14_tags_survive_serialization (h : Heap) (wf : h.WellFormed)
+    (hd : ∀ o ∈ h, o.defaults = []) (root r : GVal) (st : RbSt)
+    (hb : rebuild h root = .ok (r, st)) (p : Path) (i : Nat) (o : GObj)
+    (hp : followPath h root p = some (.ref i)) (ho : h[i]? = some o) :
+    (straightLine st.out r).run = some (r, st.out) ∧
+      ∃ j o', followPath st.out r p = some (.ref j) ∧ st.out[j]? = some o' ∧
+        o'.tags = o.tags ∧ o'.ty = o.ty ∧ o'.bk = o.bk := by
+  refine ⟨C09_load_of_dump h wf hd root r st hb, ?_⟩
+  obtain ⟨s, m⟩ := rebuildVal_step h wf _ root {} r st hb (RbSt.inv_init h)
+  have hmem := followPath_memoized h st s.inv p root (.ref i) m.2 hp i rfl
+  obtain ⟨j, hj⟩ := Option.isSome_iff_exists.mp hmem
+  obtain ⟨o2, ho2, hout⟩ := s.inv.mirror i j hj
+  rw [ho] at ho2; cases ho2
+  refine ⟨j, copyOf st.memo o, ?_, hout, rfl, rfl, rfl⟩
+  rw [m.1, followPath_rebuilt h st s.inv p root m.2, hp]
+  simp [imageOf, hj]
 
 /-! ## Non-vacuity -/
 
